@@ -12,17 +12,19 @@ VARIABLES u, last, nops
 vars == <<u, last, nops>>
 
 U0(att) ==
-    [labels |-> <<"a", "b", "a", "A", "c", "B", "Z">>,
+    [labels |-> <<"a", "b", "a", "A", "c", "B", "Z", "B", "a">>,     \* 8, 9: curated taxa in no namespace (memo 2)
      ns     |-> <<[mem |-> <<1, 2>>, cs |-> FALSE], [mem |-> <<3, 4, 5>>, cs |-> TRUE], [mem |-> <<6, 7>>, cs |-> FALSE]>>,
      trees  |-> <<[ns |-> 1, refs |-> <<1, 2>>], [ns |-> 2, refs |-> <<3, 4, 5>>], [ns |-> 2, refs |-> <<4, 5, 4>>],
-                  [ns |-> 3, refs |-> <<6, 7>>], [ns |-> 2, refs |-> <<5, 3>>], [ns |-> 2, refs |-> <<3, 5>>]>>,
+                  [ns |-> 3, refs |-> <<6, 7>>], [ns |-> 2, refs |-> <<5, 3>>], [ns |-> 2, refs |-> <<3, 5>>],
+                  [ns |-> 3, refs |-> <<7, 6>>]>>,
      lists  |-> <<[ns |-> 1, trees |-> <<1>>], [ns |-> 2, trees |-> <<2, 3>>]>>,
      mats   |-> <<[ns |-> 2, rows |-> <<3, 4>>], [ns |-> 3, rows |-> <<6>>]>>,
      arrs   |-> <<[ns |-> 1, sd |-> 1, n |-> 0]>>,
-     ds     |-> [att |-> att, lists |-> <<>>, mats |-> <<>>]]
+     ds     |-> [att |-> att, lists |-> <<>>, mats |-> <<>>],
+     memos  |-> << <<>>, << <<6, 8>>, <<1, 9>> >> >>]
 \* the larger universe of the simulated (random) histories
 U1(att) ==
-    [labels |-> <<"a", "b", "AB", "a", "A", "c", "Ab", "B", "Z", "aB", "X y", "C">>,
+    [labels |-> <<"a", "b", "AB", "a", "A", "c", "Ab", "B", "Z", "aB", "X y", "C", "B", "a">>,
      ns     |-> <<[mem |-> <<1, 2, 3>>, cs |-> FALSE], [mem |-> <<4, 5, 6, 7>>, cs |-> TRUE],
                   [mem |-> <<8, 9, 10>>, cs |-> FALSE], [mem |-> <<11, 12>>, cs |-> TRUE]>>,
      trees  |-> <<[ns |-> 1, refs |-> <<1, 2, 3>>], [ns |-> 2, refs |-> <<4, 5, 6, 7>>], [ns |-> 2, refs |-> <<5, 6, 5>>],
@@ -31,7 +33,8 @@ U1(att) ==
      lists  |-> <<[ns |-> 1, trees |-> <<1>>], [ns |-> 2, trees |-> <<2, 3>>], [ns |-> 3, trees |-> <<4>>]>>,
      mats   |-> <<[ns |-> 2, rows |-> <<4, 5, 7>>], [ns |-> 3, rows |-> <<8, 10>>], [ns |-> 4, rows |-> <<12>>]>>,
      arrs   |-> <<[ns |-> 1, sd |-> 1, n |-> 0], [ns |-> 2, sd |-> 2, n |-> 0]>>,
-     ds     |-> [att |-> att, lists |-> <<>>, mats |-> <<>>]]
+     ds     |-> [att |-> att, lists |-> <<>>, mats |-> <<>>],
+     memos  |-> << <<>>, << <<8, 13>>, <<1, 14>>, <<6, 14>> >> >>]
 NoOp == [a |-> "", x |-> <<>>, raised |-> ""]
 Init == /\ u \in (IF Big THEN {U1(0), U1(3)} ELSE {U0(0)}) /\ last = NoOp /\ nops = 0
 
@@ -39,6 +42,7 @@ Init == /\ u \in (IF Big THEN {U1(0), U1(3)} ELSE {U0(0)}) /\ last = NoOp /\ nop
 \* histories can be enumerated (and replayed on real objects) deeper:
 \*  "L": import a tree from a foreign namespace into list 1 ; change the namespace of list 1 ; import another tree
 \*       from the same foreign namespace (two free trees of N2 and one of N3 are in the universe)
+\*  "M": caller-owned taxon_mapping_memo dictionaries handed to several migrations; trees made from seed nodes
 \*  "D": read into / add to the data set ; attach / unify ; read again; matrix 2 migrated and cloned in between
 Has(x, f) == f \in DOMAIN x
 FocusOK(a, x) ==
@@ -49,6 +53,13 @@ FocusOK(a, x) ==
             /\ (Has(x, "strat") => x.strat = "migrate") /\ (Has(x, "ts") => x.ts \in {<<6>>, <<5, 5>>})
             /\ (Has(x, "lo") => x.lo = 0 /\ x.hi = 1) /\ (Has(x, "how") => x.how = "pop")
             /\ (a = "TLReconstruct" => x.unify) /\ (a = "TreeClone" => x.t = 5 /\ x.nsarg = 0)
+      [] Focus = "M" ->     \* explicit memos shared between calls into different containers; hand-made seed nodes
+            /\ a \in {"TLAppendMemo", "TLMigrateMemo", "TreeMigrateMemo", "CMMigrateMemo", "TLNewTreeSeed", "TreeFromSeed", "TLAppend", "TLRemoveAt"}
+            /\ (Has(x, "t") => x.t \in {4, 7, 8}) /\ (Has(x, "how") => x.how \in {"append", "pop"}) /\ (Has(x, "i") => x.i = 0)
+            /\ (Has(x, "strat") => x.strat = "migrate") /\ (Has(x, "m") => x.m = 2)
+            /\ (a = "TLMigrateMemo" => x.l = 1 /\ x.n = 3) /\ (a \in {"TreeMigrateMemo", "CMMigrateMemo"} => x.n = 1)
+            /\ (Has(x, "refs") => x.refs = <<6, 7>> /\ x.labs = <<"a", "Q">> /\ (Has(x, "nsarg") => x.nsarg = 1) /\ (Has(x, "l") => x.l = 1))
+            /\ (a = "TLRemoveAt" => x.l = 1)
       [] Focus = "D" ->
             /\ a \in {"DSRead", "DSReadBlocks", "DSAddList", "DSNewList", "DSAttach", "DSDetach", "DSUnify", "CMMigrate", "CMClone", "CMGetTaxon", "TLAppend", "TLMigrate"}
             /\ (Has(x, "m") => x.m = 2) /\ (Has(x, "l") => x.l = 1) /\ (Has(x, "t") => x.t = (IF a = "CMGetTaxon" THEN 2 ELSE 5))
@@ -64,12 +75,12 @@ Act(a, x) == /\ nops < MaxOps /\ nops' = nops + 1
 \* Wide = FALSE: the narrow sets of the deep runs;  Wide = TRUE: every object of the universe.
 W(wide, narrow) == IF Big \/ Wide THEN wide ELSE narrow
 LS == IF Big THEN 1..5 ELSE 1..3
-TS == IF Big THEN 1..10 ELSE 1..7
+TS == IF Big THEN 1..10 ELSE 1..8
 NS == IF Big THEN 1..4 ELSE 1..3
 NS0 == {0} \cup NS
 MS == IF Big THEN 1..4 ELSE 1..3
 AS == IF Big THEN 1..2 ELSE {1}
-XS == IF Big THEN 1..12 ELSE 1..7
+XS == IF Big THEN 1..14 ELSE 1..9
 Strats == {"migrate", "add"}
 TSeqs == IF Big THEN {<<5, 6>>, <<4, 8>>, <<7, 7>>, <<1, 9>>} ELSE W({<<4, 5>>, <<5, 5>>, <<1, 3>>, <<6>>}, {<<4, 5>>})
 Slices == W({<<0, 0>>, <<0, 1>>, <<1, 2>>, <<0, 2>>}, {<<0, 1>>, <<1, 2>>})
@@ -79,11 +90,13 @@ Docs == {[taxa |-> <<"A", "b", "C">>, rows |-> <<"A", "b">>, trees |-> <<<<"A", 
          \cup W({[taxa |-> <<"B", "c">>, rows |-> <<>>, trees |-> <<<<"c", "B">>>>]}, {})
 BlockDocs == {<<[taxa |-> <<"A", "b", "C">>, trees |-> <<<<"A", "b", "C">>>>], [taxa |-> <<"A", "C", "Z">>, trees |-> <<<<"Z", "A", "C">>>>]>>}
              \cup W({<<[taxa |-> <<"a", "Z">>, trees |-> <<<<"Z", "a">>>>], [taxa |-> <<"z", "B">>, trees |-> <<<<"B", "z">>, <<"z">>>>]>>}, {})
+SeedRefs == IF Big THEN {<<8, 9>>, <<1>>, <<>>} ELSE W({<<6, 7>>, <<1>>, <<>>}, {<<6>>})
+SeedLabs == W({<<>>, <<"a", "Q">>}, {<<"a">>})
 KeySets == W({<<"a", "B">>, <<"A", "a", "c">>}, {<<"A", "a", "c">>})
 LS2 == W(LS, 1..2)              \* lists named as first operand
 FreeT == W(TS, {4, 5})          \* trees offered to a list
 CloneT == W(TS, {2, 4})
-ArrT == W(TS, {1, 4, 7})
+ArrT == W(TS, {1, 4, 8})
 RowX == W(XS, {1, 5})
 Idx == W({0, 1}, {0})
 Rm == W({0, 1} \X {"pop", "del", "remove"}, {<<0, "pop">>, <<0, "remove">>, <<1, "del">>})
@@ -114,6 +127,12 @@ TLReconstruct(l, b) == G("listns") /\ Act("TLReconstruct", [l |-> l, unify |-> b
 TLUpdate(l) == G("listns") /\ Act("TLUpdate", [l |-> l])
 TreeMigrate(t, n, b) == G("tree") /\ Act("TreeMigrate", [t |-> t, n |-> n, unify |-> b])
 TreeClone(t, n) == G("tree") /\ Act("TreeClone", [t |-> t, nsarg |-> n])
+TLAppendMemo(l, t, how, k) == G("memo") /\ Act("TLAppendMemo", [l |-> l, t |-> t, how |-> how, k |-> k])
+TLMigrateMemo(l, n, k) == G("memo") /\ Act("TLMigrateMemo", [l |-> l, n |-> n, k |-> k])
+TreeMigrateMemo(t, n, k) == G("memo") /\ Act("TreeMigrateMemo", [t |-> t, n |-> n, k |-> k])
+CMMigrateMemo(m, n, k) == G("memo") /\ Act("CMMigrateMemo", [m |-> m, n |-> n, k |-> k])
+TLNewTreeSeed(l, refs, labs) == G("seed") /\ Act("TLNewTreeSeed", [l |-> l, refs |-> refs, labs |-> labs])
+TreeFromSeed(n, refs, labs) == G("seed") /\ Act("TreeFromSeed", [nsarg |-> n, refs |-> refs, labs |-> labs])
 TAAdd(a, t) == G("arr") /\ Act("TAAdd", [a |-> a, t |-> t])
 TARead(a, srcs) == G("arr") /\ Act("TARead", [a |-> a, srcs |-> srcs])
 CMNewSeq(m, t) == G("mat") /\ Act("CMNewSeq", [m |-> m, t |-> t])
@@ -157,6 +176,12 @@ Next == \/ \E l \in LS2, t \in FreeT, s \in Strats : TLAppend(l, t, s)
         \/ \E l \in LS2 : TLUpdate(l)
         \/ \E t \in FreeT, n \in W(NS, {1}), b \in BOOLEAN : TreeMigrate(t, n, b)
         \/ \E t \in CloneT, n \in NsA : TreeClone(t, n)
+        \/ \E l \in LS2, t \in W(TS, {4}), how \in W({"append", "insert"}, {"append"}), k \in W({1, 2}, {2}) : TLAppendMemo(l, t, how, k)
+        \/ \E l \in W(LS, {1}), n \in W(NS, {3}), k \in W({1, 2}, {2}) : TLMigrateMemo(l, n, k)
+        \/ \E t \in W(TS, {4}), n \in W(NS, {1}), k \in W({1, 2}, {1}) : TreeMigrateMemo(t, n, k)
+        \/ \E m \in W(MS, {2}), n \in W(NS, {1}), k \in W({1, 2}, {2}) : CMMigrateMemo(m, n, k)
+        \/ \E l \in W(LS, {1}), refs \in SeedRefs, labs \in SeedLabs : TLNewTreeSeed(l, refs, labs)
+        \/ \E n \in W(NS0, {1}), refs \in SeedRefs, labs \in SeedLabs : TreeFromSeed(n, refs, labs)
         \/ \E a \in AS, t \in ArrT : TAAdd(a, t)
         \/ \E a \in AS, srcs \in W(TreeSrcs, {<<<<"Z", "AB">>>>}) : TARead(a, srcs)
         \/ \E m \in MS, t \in RowX : CMNewSeq(m, t)
